@@ -79,7 +79,9 @@ Definition expected_skeleton : list string := [
   "    if 'W' in self._rights.authorization(user, principal_path):";
   "      with self._storage.acquire_lock('w', user):";
   "        try:";
-  "          new_coll = self._storage.create_collection(principal_path)";
+  "          new_coll = None";
+  "          if not next(iter(self._storage.discover(principal_path, depth='1')), None):";
+  "            new_coll = self._storage.create_collection(principal_path)";
   "          if new_coll:";
   "            jsn_coll = self.configuration.get('storage', 'predefined_collections')";
   "            for (name_coll, props) in jsn_coll.items():";
